@@ -23,6 +23,7 @@ func runC03(c *vlib.Check) {
 	var trees []*enum.N
 	enum.Trees(c.Thorough(), func(n *enum.N) { trees = append(trees, n) })
 	enum.BigTrees(func(n *enum.N) { trees = append(trees, n) })
+	enum.BinaryTextTrees(func(n *enum.N) { trees = append(trees, n) })
 	vlib.Parallel(len(trees), 0, func(i int) { c03One(c, trees[i], i) })
 	c.Exhaustive = true
 }
